@@ -33,9 +33,9 @@ from mc.sched import threads as ts
 PROPERTY = "C16"
 SERIAL_THREADS = True
 RULE = (
-    "iterator part: 10 queries x 6 harness configurations (sharing of query / environment / document) "
+    "iterator part: 10 queries x 7 harness configurations (sharing of query / environment / document) "
     "x all interleavings of next() over 2-3 iterators (multinomial; every schedule replayed on fresh "
-    "iterators) + all single close/drop points for k=2; thread part: 15 two-thread harnesses x all "
+    "iterators) + all single close/drop points for k=2; thread part: 17 two-thread harnesses x all "
     "schedules with <=1 (quick) / <=2 (thorough, capped) preemptions at line granularity; compile-only part: "
     "1 (quick) / 4 (thorough) two-thread compile harnesses x ALL schedules with <=2 preemptions; distinct by "
     "construction; non-trivial = schedules in which at least two iterators/threads are live at once"
@@ -59,10 +59,13 @@ QUERIES = [
     ("$[?match(@.b, '.y')]", [{"b": "xy"}, {"b": "y"}, {"b": "zy"}]),
     ("$[?search(@.b, 'y|z')]", [{"b": "xy"}, {"b": "x"}, {"b": "xz"}]),
     ("$[?value(@..a) == 1]", [{"a": 1}, {"b": {"a": 1}}, {"a": 2}]),
+    # '.' inside a character class (a literal dot) / outside (anything but CR, LF), on subjects that tell them apart
+    ("$[?match(@.b, '[.]y|a[^.]')]", [{"b": ".y"}, {"b": "xy"}, {"b": "a."}, {"b": "ab"}]),
+    ("$[?search(@.b, 'x.')]", [{"b": "x\r"}, {"b": "xy"}, {"b": "ax\n"}, {"b": "x"}]),
 ]
 N_ITER_QUERIES = 10
 ALT_DOC = {"a": 7, "b": [{"a": 1, "b": "x"}, [5, 6]], "x": 2, "l": [{"a": 2}]}
-CONFIGS = ["same-query-same-doc", "same-query-two-docs", "two-compilations-same-doc", "two-envs-same-doc",
+CONFIGS = ["same-query-same-doc", "same-query-two-docs", "same-query-twin-docs", "two-compilations-same-doc", "two-envs-same-doc",
            "two-envs-two-docs", "three-same-query"]
 
 
@@ -73,6 +76,29 @@ def BOUNDS(tier):
             "thread_executions_cap_per_harness": None if tier == "quick" else 6000,
             "compile_only_harnesses": [w[0] for w in (W_HARNESS[:1] if tier == "quick" else W_HARNESS)],
             "compile_only_preemption_bound": 2, "compile_only_cap": None}
+
+
+def _twin(x):
+    """the same value with every 1 / 0 replaced by true / false and vice versa: equal under Python's
+    ==, a different JSON value"""
+    if x is True or x is False:
+        return int(x)
+    if isinstance(x, int) and x in (0, 1):
+        return bool(x)
+    if isinstance(x, list):
+        return [_twin(v) for v in x]
+    if isinstance(x, dict):
+        return {k: _twin(v) for k, v in x.items()}
+    return x
+
+
+_TWINS = {}
+
+
+def twin_doc(qi):
+    if qi not in _TWINS:
+        _TWINS[qi] = _twin(QUERIES[qi][1])
+    return _TWINS[qi]
 
 
 def make_iters(config, qi):
@@ -98,6 +124,9 @@ def _build_iters(config, qi):
         facs = [lambda: q1.finditer(doc), lambda: q1.finditer(doc)]
     elif config == "same-query-two-docs":
         facs = [lambda: q1.finditer(doc), lambda: q1.finditer(ALT_DOC)]
+    elif config == "same-query-twin-docs":
+        td = twin_doc(qi)
+        facs = [lambda: q1.finditer(doc), lambda: q1.finditer(td)]
     elif config == "two-compilations-same-doc":
         q1b = e1.compile(text)
         q_other = e1.compile(other_text)
@@ -180,10 +209,12 @@ T_HARNESS = [
     ("match() in a shared compiled query", 4, 4, "iter", "iter"),
     ("count() in a shared compiled query", 5, 5, "iter", "iter"),
     ("value() in a shared compiled query / find", 12, 12, "iter", "find"),
+    ("match with '.' inside a class / search with '.' outside, CR LF subjects", 13, 14, "find", "find"),
+    ("match with '.' inside a class, shared compiled query", 13, 13, "iter", "iter"),
 ]
 
 
-T3 = {15: (0, "iter"), 16: (4, "find")}  # thorough only: harness index -> (query, kind) of a third thread
+T3 = {17: (0, "iter"), 18: (4, "find")}  # thorough only: harness index -> (query, kind) of a third thread
 T_HARNESS_3 = [
     ("three threads: finditer x2 shared query + find", 0, 0, "iter", "iter"),
     ("three threads: match two patterns + third pattern", 4, 10, "find", "find"),
@@ -266,7 +297,7 @@ def thread_bodies(h):
 
         bodies = [body(qa, ka), body(qb, kb)]
         if third is not None:
-            bodies.append(body(11 if h == 16 else third[0], third[1]))
+            bodies.append(body(11 if h == 18 else third[0], third[1]))
         return bodies
 
     def make():
